@@ -444,11 +444,19 @@ pub static B_SAW_A: std::sync::atomic::AtomicBool = std::sync::atomic::AtomicBoo
 /// mode: the syncing node A has completed its initial loading (a block whose parent is missing is
 /// re-queued and its parent fetched, instead of being stored)
 pub static A_LOADED: std::sync::atomic::AtomicBool = std::sync::atomic::AtomicBool::new(false);
+/// 0 = the default fetch batch (2 concurrent fetches per peer); otherwise A's block_fetch_batch_size
+pub static A_BATCH: std::sync::atomic::AtomicUsize = std::sync::atomic::AtomicUsize::new(0);
 
 pub fn start(f: &Forest, ca: (usize, usize), cb: (usize, usize), block_of: &BTreeMap<Hash, Vec<u8>>) -> Result<Net, String> {
     let mut cfg_a = cfg();
     if A_LOADED.load(std::sync::atomic::Ordering::SeqCst) {
         cfg_a.blockchain.initial_loading_completed = true;
+    }
+    let ab = A_BATCH.load(std::sync::atomic::Ordering::SeqCst);
+    if ab != 0 {
+        if let Some(sv) = cfg_a.server.as_mut() {
+            sv.block_fetch_batch_size = ab as u64;
+        }
     }
     cfg_a.peers = vec![PeerConfig { host: "b".into(), port: 1, protocol: "http".into(), synctype: "full".into() }];
     cfg_a.fetch_url = "http://a".into();
@@ -639,7 +647,7 @@ fn run_sched(f: &Forest, ca: (usize, usize), cb: (usize, usize), block_of: &BTre
 /// newest first, every outstanding fetch is served before the next announcement is delivered
 fn run_sched_mode(f: &Forest, ca: (usize, usize), cb: (usize, usize), block_of: &BTreeMap<Hash, Vec<u8>>, rep: &mut Report, mode: u8) {
     let newest_first = mode == 1;
-    let case = json!({"a": {"fork_after": ca.0, "branch_len": ca.1}, "b": {"fork_after": cb.0, "branch_len": cb.1}, "fetches_complete": if newest_first { "newest first" } else { "in request order" }, "announcements": if mode == 2 { "newest first, fetches served in between" } else if mode == 3 { "newest first, alternating with single fetch completions" } else { "in order" }});
+    let case = json!({"a": {"fork_after": ca.0, "branch_len": ca.1}, "b": {"fork_after": cb.0, "branch_len": cb.1}, "fetches_complete": if newest_first { "newest first" } else { "in request order" }, "announcements": if mode == 4 { "newest first, one after every two fetch completions" } else if mode == 2 { "newest first, fetches served in between" } else if mode == 3 { "newest first, alternating with single fetch completions" } else { "in order" }});
     let mut net = match start(f, ca, cb, block_of) {
         Ok(n) => n,
         Err(e) => {
@@ -648,6 +656,9 @@ fn run_sched_mode(f: &Forest, ca: (usize, usize), cb: (usize, usize), block_of: 
         }
     };
     let mut hist = vec![];
+    let mut grown = 0usize;
+    let mut cb_now = cb;
+    loop {
     for _ in 0..20_000 {
         let en = enabled(&net, 6);
         let pick = if mode == 3 {
@@ -657,6 +668,15 @@ fn run_sched_mode(f: &Forest, ca: (usize, usize), cb: (usize, usize), block_of: 
             let fetch = en.iter().find(|e| matches!(e, Ev::FetchA(_))).cloned();
             let ann = if net.to_a.is_empty() { None } else { Some(Ev::ToANewest) };
             internal.or_else(|| if last_was_fetch { ann.or(fetch) } else { fetch.or(ann) }).or_else(|| en.first().cloned())
+        } else if mode == 4 {
+            // one announcement (newest first) after every two fetch completions: a header reaches the
+            // node when its block has already come in through the parent walk and is parked
+            let since: usize = hist.iter().rev().take_while(|e| !matches!(e, Ev::ToANewest)).filter(|e| matches!(e, Ev::FetchA(_))).count();
+            let announced = hist.iter().any(|e| matches!(e, Ev::ToANewest));
+            let internal = en.iter().find(|e| matches!(e, Ev::IntA(_) | Ev::IntB(_) | Ev::ToB)).cloned();
+            let fetch = en.iter().find(|e| matches!(e, Ev::FetchA(_))).cloned();
+            let ann = if net.to_a.is_empty() { None } else { Some(Ev::ToANewest) };
+            internal.or_else(|| if !announced || since >= 2 { ann.or(fetch) } else { fetch.or(ann) }).or_else(|| en.first().cloned())
         } else if mode == 2 {
             en.iter().find(|e| matches!(e, Ev::IntA(_) | Ev::IntB(_) | Ev::ToB)).cloned().or_else(|| en.iter().find(|e| matches!(e, Ev::FetchA(_))).cloned()).or_else(|| if net.to_a.is_empty() { None } else { Some(Ev::ToANewest) }).or_else(|| en.first().cloned())
         } else if newest_first { en.iter().find(|e| !matches!(e, Ev::FetchA(_) | Ev::TickA)).or_else(|| en.iter().rev().find(|e| matches!(e, Ev::FetchA(_)))).or_else(|| en.first()).cloned() } else { en.first().cloned() };
@@ -667,10 +687,53 @@ fn run_sched_mode(f: &Forest, ca: (usize, usize), cb: (usize, usize), block_of: 
             return;
         }
     }
-    rep.evaluations += 1;
-    rep.traces_validated += 1;
-    let short: Vec<Ev> = hist.iter().rev().take(12).rev().cloned().collect();
-    check_quiescent(f, &net, ca, cb, &short, rep, &case, if mode == 2 { "newest-announcement-first" } else if mode == 3 { "announcements-and-fetches-alternate" } else if newest_first { "newest-fetch-first" } else { "fifo" });
+    let mode_name = if mode == 4 { "announcement-after-two-fetches" } else if mode == 2 { "newest-announcement-first" } else if mode == 3 { "announcements-and-fetches-alternate" } else if newest_first { "newest-fetch-first" } else { "fifo" };
+    if grown == 0 {
+        rep.evaluations += 1;
+        rep.traces_validated += 1;
+        let short: Vec<Ev> = hist.iter().rev().take(12).rev().cloned().collect();
+        check_quiescent(f, &net, ca, cb, &short, rep, &case, mode_name);
+    } else {
+        // from a non-initial state: the peer's chain grew after the sync was over
+        rep.evaluations += 1;
+        let (ta, tb) = (net.a.tip(), net.b.tip());
+        if ta != tb {
+            let mut c = case.clone();
+            c["peer_grew_by"] = json!(grown);
+            c["history_tail"] = json!(hist.iter().rev().take(12).rev().map(|e| format!("{:?}", e)).collect::<Vec<_>>());
+            rep.violate(&format!("not-converged-after-the-peer-grew/{}/a({},{})/b({},{})", mode_name, ca.0, ca.1, cb.0, cb.1), format!("the sync ended with both on B's tip; B then adopted {} more block(s) and announced them: at quiescence A is at {}:{} and B at {}:{}", grown, ta.0, hx(&ta.1[..6]), tb.0, hx(&tb.1[..6])), c);
+        } else {
+            rep.outcome(&format!("converged-after-the-peer-grew/{}", mode_name));
+        }
+    }
+    if A_BATCH.load(std::sync::atomic::Ordering::SeqCst) == 0 || grown == 2 || net.a.tip() != net.b.tip() {
+        break;
+    }
+    // B adopts the next block of its own chain (it reaches B's consensus handler like a block
+    // fetched from some other peer) and announces it
+    let next: Option<&Vec<u8>> = if cb_now.1 == 0 { f.trunk.get(cb_now.0) } else { f.branch[cb_now.0].get(cb_now.1) };
+    let Some(bytes) = next else { break };
+    cb_now = if cb_now.1 == 0 { (cb_now.0 + 1, 0) } else { (cb_now.0, cb_now.1 + 1) };
+    let block = decode_block(bytes);
+    let want = block.hash;
+    net.b.q_consensus.push_back(saito_core::core::consensus_thread::ConsensusEvent::BlockFetched { peer_index: 77, block });
+    grown += 1;
+    // B's own handlers first, so that the growth is a fact before A hears of it
+    for _ in 0..50 {
+        if net.b.tip().1 == want {
+            break;
+        }
+        let Some(ev) = enabled(&net, 6).into_iter().find(|e| matches!(e, Ev::IntB(_))) else { break };
+        hist.push(ev);
+        if !apply(&mut net, ev, block_of, rep, &hist, &case) {
+            return;
+        }
+    }
+    if net.b.tip().1 != want {
+        rep.outcome("growth:peer-did-not-adopt-its-next-block");
+        break;
+    }
+    }
 }
 
 fn explore(f: &Forest, ca: (usize, usize), cb: (usize, usize), block_of: &BTreeMap<Hash, Vec<u8>>, rep: &mut Report, cap: usize) {
@@ -914,6 +977,7 @@ pub fn main(tier: Tier, replay_file: Option<String>) -> i32 {
     let res = par_map(&nonempty, workers(), |_, (ca, cb)| {
         let mut r = rep.child();
         run_sched_mode(&f, *ca, *cb, &block_of, &mut r, 2);
+        run_sched_mode(&f, *ca, *cb, &block_of, &mut r, 4);
         if tier.thorough {
             run_sched_mode(&f, *ca, *cb, &block_of, &mut r, 3);
         }
@@ -924,6 +988,32 @@ pub fn main(tier: Tier, replay_file: Option<String>) -> i32 {
     for r in res {
         rep.merge(r);
     }
+    // one fetch at a time: a syncing node configured with block_fetch_batch_size 1 has a single
+    // slot per peer, so anything that keeps a slot occupied after its fetch is over (a refused
+    // dispatch, a completion that is not accounted) stops the sync at once; every long world under
+    // the four fixed schedules, with a loading and with a loaded syncing node
+    A_BATCH.store(1, std::sync::atomic::Ordering::SeqCst);
+    for loaded in [false, true] {
+        A_LOADED.store(loaded, std::sync::atomic::Ordering::SeqCst);
+        let worlds: &Vec<_> = if loaded { &nonempty } else { &fifo };
+        let res = par_map(worlds, workers(), |_, (ca, cb)| {
+            let mut r = rep.child();
+            run_fifo(&f, *ca, *cb, &block_of, &mut r);
+            run_sched(&f, *ca, *cb, &block_of, &mut r, true);
+            if loaded {
+                run_sched_mode(&f, *ca, *cb, &block_of, &mut r, 2);
+                run_sched_mode(&f, *ca, *cb, &block_of, &mut r, 3);
+                run_sched_mode(&f, *ca, *cb, &block_of, &mut r, 4);
+            }
+            r.outcome(if loaded { "single-fetch-slot:loaded-world" } else { "single-fetch-slot:loading-world" });
+            r
+        });
+        for r in res {
+            rep.merge(r);
+        }
+    }
+    A_LOADED.store(false, std::sync::atomic::Ordering::SeqCst);
+    A_BATCH.store(0, std::sync::atomic::Ordering::SeqCst);
     rep.outcome_n("fifo:worlds", (fifo.len() + 2 * forked.len()) as u64);
     rep.sample(json!({"a": {"fork_after": 2, "branch_len": 1}, "b": {"fork_after": 5, "branch_len": 0}}));
     rep.required_outcomes = vec!["grid:chains".into(), "converged/fifo".into(), "converged/all-orders".into()];
